@@ -359,7 +359,13 @@ where
     };
 
     let max_height_log = index_bits.len();
-    let path_depth = max_height_log - cap_height;
+    // A cap taller than the tree the index addresses is a malformed opening, not a panic.
+    let path_depth = max_height_log.checked_sub(cap_height).ok_or(
+        CircuitBuilderError::InvalidDimension {
+            expected: cap_height,
+            actual: max_height_log,
+        },
+    )?;
 
     // Split index_bits into path bits (for Merkle traversal) and cap index bits
     let path_bits = &index_bits[..path_depth];
@@ -473,7 +479,13 @@ where
     };
 
     let max_height_log = index_bits.len();
-    let path_depth = max_height_log - cap_height;
+    // A cap taller than the tree the index addresses is a malformed opening, not a panic.
+    let path_depth = max_height_log.checked_sub(cap_height).ok_or(
+        CircuitBuilderError::InvalidDimension {
+            expected: cap_height,
+            actual: max_height_log,
+        },
+    )?;
     let path_bits = &index_bits[..path_depth];
     let cap_index_bits = &index_bits[path_depth..];
 
